@@ -428,6 +428,36 @@ def main():
               guard(lambda: list(stream(Pseq([call_m(Pseq(xs_f))])))), want_all)
         check('narop_optional_args_operand', 'lift_narop_hom', '[Operand(v).%s.value for v in %s]' % (desc, xs_f),
               guard(lambda: [guard(lambda v=v: call_m(Operand(v)).value)() for v in xs_f]), wantl)
+        # operand ALIASING: the IDENTICAL object on both sides of a binary operator / in several argument positions of
+        # an n-ary one, directly and embedded: each occurrence is an independent stream of the same blueprint
+        al = [rng.randint(-6, 6) for _ in range(rng.randint(1, 6))]
+        pal = Pseq(al)
+        qal = pal + 10                                        # a composite used twice
+        okdiv = not (name in ('//', 'bi.mod') and (0 in al or -10 in al))
+        if okdiv:
+            check('alias_pattern_binop', 'pattern_binop_numbers', 'p = Pseq(%s); list(stream(p %s p)), q = p + 10; list(stream(q %s q))' % (al, name, name),
+                  lambda: (list(stream(op(pal, pal))), list(stream(op(qal, qal)))),
+                  ([op(v, v) for v in al], [op(v + 10, v + 10) for v in al]))
+            check('alias_pattern_binop_embedded', 'embedded_binop', 'p = Pseq(%s); list(stream(Pseq([p %s p]))), list(stream(Pn(p %s p, 2)))' % (al, name, name),
+                  lambda: (list(stream(Pseq([op(pal, pal)]))), list(stream(Pn(op(pal, pal), 2)))),
+                  ([op(v, v) for v in al], [op(v, v) for v in al] * 2))
+        check('alias_pattern_narop', 'embedded_narop', 'p = Pseq(%s); list(stream(p.%s(p - 1, p + 1))), list(stream(Pseq([p.%s(p, p)])))' % (al, n3, n3),
+              lambda: (list(stream(getattr(pal, n3)(pal - 1, pal + 1))), list(stream(Pseq([getattr(pal, n3)(pal, pal)])))),
+              ([op3(v, v - 1, v + 1) for v in al], [op3(v, v, v) for v in al]))
+        check('alias_pattern_unop_of_shared', 'embedded_unop', 'p = Pseq(%s); list(stream((-p) - (-p))) with one -p object' % (al,),
+              lambda: (lambda m: list(stream(m - m)))(-pal), [0 for _ in al])
+        cal = ChannelList(al)
+        if okdiv:
+            check('alias_list_and_operand', 'chan_binop_wrap_law', 'c = ChannelList(%s); list(c %s c); o = Operand(%d); (o %s o).value' % (al, name, n, name),
+                  lambda: (list(op(cal, cal)), op(Operand(n), Operand(n)).value if name not in ('<',) else None,
+                           (lambda o: op(o, o).value)(Operand(n))),
+                  ([op(v, v) for v in al], op(n, n) if name not in ('<',) else None, op(n, n)))
+        check('alias_function_narop', 'lift_narop_hom', 'f.%s(f, f)(x), (f %s f)(x)' % (n3, '-'),
+              lambda: (getattr(f, n3)(f, f)(x), (f - f)(x), ((f + 1) * (f + 1))(x)), (op3(fx, fx, fx), 0, (fx + 1) * (fx + 1)))
+        # the same Pfunc on both sides sees the same input once per element
+        idp = Pfunc(lambda v: v)
+        check('alias_inval_operand', 'inval_binop', 'i = Pfunc(lambda v: v); feed %s to Pseq([i * i])' % invs,
+              lambda: feed(Pseq([idp * idp])), [v * v for v in invs])
     # keep one (the first) example per law
     seen, out = set(), []
     for b in bad:
